@@ -331,3 +331,13 @@ EXTRA = {
 for _pid, _ts in EXTRA.items():
     PROPS[_pid]["extra_modules"] = ["Rough.Props.Extra"]
     PROPS[_pid]["theorems"] = PROPS[_pid]["theorems"] + ["Rough.Props.Extra." + t for t in _ts]
+
+
+# function-level request / grease stream
+_REQS = {"args": ["reqs"], "shards_quick": 8, "shards_thorough": 16}
+for _pid, _op in (("C07", "req"), ("C12", "req"), ("C02", "grease")):
+    PROPS[_pid]["streams"] = PROPS[_pid]["streams"] + [_REQS]
+    PROPS[_pid]["ops"] = PROPS[_pid]["ops"] + [_op]
+PROPS["C07"]["rule"] += "; function level: request::nonce_from_request called directly on a long-lived 64 KiB buffer holding stale content (15 000 quick / 150 000 thorough datagrams: valid, 18 invalid kinds, one- and two-step structured mutants of valid requests, VER-list and SRV variants, nonce-length variants) judged by the reference classification"
+PROPS["C12"]["rule"] += "; function level: the same 15 000 / 150 000 direct nonce_from_request cases incl. random VER lists of length 0..6 and SRV absent / correct / other server / truncated / extended"
+PROPS["C02"]["rule"] += "; function level: Grease::add_errors on 1500 / 6000 response-shaped messages: result is the original, or is rejected by the reference decoder (reordering), or is a signature corruption (SIG replaced, NONC dropped) - no third state"
